@@ -141,6 +141,16 @@ class Structure(list):
         target[:] = self
         return target
 
+    def __setstate__(self, state):
+        """Restore pickled state.
+
+        Atoms can be unpickled before the attributes of this object, link
+        them again to the restored lattice.
+        """
+        self.__dict__.update(state)
+        self.lattice = self._lattice
+        return
+
     def __str__(self):
         """Simple string representation."""
         s_lattice = "lattice=%s" % self.lattice
